@@ -82,7 +82,7 @@ def extra_step(chk):
 CFG = {
     "module": "SafeHtml.Props.C09",
     "extra_step": extra_step,
-    "proof_modules": ["SafeHtml.Model.Conc", "SafeHtml.Proofs.Frozen"],
+    "proof_modules": ["SafeHtml.Model.Conc", "SafeHtml.Proofs.Frozen", "SafeHtml.Proofs.ConcApi", "SafeHtml.Proofs.ConcReach"],
     "trusted_base": [
         KERNEL, TRANSLATOR, CORR, TMPL_MODEL, TT,
         "Model/Conc.lean: the concurrency model — critical sections under ONE mutex are atomic, the unlocked phase of a call only reads; "
@@ -110,12 +110,13 @@ CFG = {
                   "compared with the real package on generated histories (order-independence oracle); tools/racer runs thousands of multi-goroutine "
                   "scenarios (shared helpers in text/attribute/URL/script/RCDATA positions, failing members, first executions racing with read-only "
                   "calls, GOMAXPROCS 1–16) under the race detector and compares every call's result with sequential reference runs.",
-    "level_note": "The stability condition for concurrent FIRST executions ('no later analysis changes what an analysed template executes') is proved for "
-                  "every reachable state of the API model in Proofs/Frozen.lean (C09_frozen_reachable, settled_after_own_analysis, apiExecute_frozen, "
-                  "apiExecuteTemplate_frozen); what is NOT formalised is the last assembly step — instantiating Model/Conc.Stable with the API model's "
-                  "Execute/ExecuteTemplate calls and these lemmas — and that New/Parse/Clone leave an executed set's escaper alone. "
-                  "The model cannot exhibit: the Go memory model, the scheduler, races inside text/template or the data passed by the caller; "
-                  "those are covered by the race detector and the per-call comparison only.",
+    "level_note": "Closed for the API model: Proofs/ConcApi.lean splits apiExecute / apiExecuteTemplate into critical section + unlocked textExecute "
+                  "(apiExecute_split, step_eq_runCall, serial_is_api_step: one serial step of Model/Conc IS one Api.step, the function compared with the real package), "
+                  "proves Conc.Stable for these calls and Lookup/Templates (api_stable, from the escaper-state invariant of Proofs/Frozen.lean) and concludes "
+                  "C09_api_serializable / C09_api_results for every world satisfying Inv; Proofs/ConcReach.lean proves Inv for EVERY world reachable from the empty world "
+                  "by any sequence of model operations (invR_step for all ops incl. New on an executed set, Parse, Clone; C09_api_serializable_reachable has no hypothesis but "
+                  "Reachable w). Outside: the calls Name/DefinedTemplates (not operations of the model), construction operations running concurrently with executions. The model cannot exhibit the Go memory model, the scheduler, races "
+                  "inside text/template or the data passed by the caller; those are covered by the race detector and the per-call comparison only.",
     "technique": "Lean 4 proof (serializability by induction over schedules; lock discipline by kernel evaluation over regenerated go/ast facts) + "
                  "API-history correspondence + multi-goroutine driver under the Go race detector with sequential reference runs",
     "search_rounds": 3,
